@@ -7,7 +7,6 @@ import (
 	"os/exec"
 	"path/filepath"
 	"strings"
-	"sync"
 	"time"
 )
 
@@ -67,43 +66,56 @@ func raceTwo(file string, timeoutS int) SolverAnswer {
 	return a
 }
 
-// solve runs the portfolio: z3-new first; if undecided, z3 and cvc5 in parallel.
+// solve runs the portfolio: z3-new briefly; if undecided, z3-new, z3 and cvc5
+// race with the full timeout and the first definite answer wins.
 func solve(dir, name, query string, timeoutS int, all bool) (SolverAnswer, []SolverAnswer) {
 	file := filepath.Join(dir, name+".smt2")
 	if err := os.WriteFile(file, []byte(query), 0o644); err != nil {
 		return SolverAnswer{Status: "error", Output: err.Error()}, nil
 	}
 	var tried []SolverAnswer
-	first := runOne("z3-new", file, timeoutS)
+	quick := 3
+	if timeoutS < quick {
+		quick = timeoutS
+	}
+	first := runOne("z3-new", file, quick)
 	tried = append(tried, first)
 	if (first.Status == "unsat" || first.Status == "sat") && !all {
 		return first, tried
 	}
-	var wg sync.WaitGroup
-	res := make([]SolverAnswer, 2)
-	for i, s := range []string{"z3", "cvc5"} {
-		wg.Add(1)
-		go func(i int, s string) {
-			defer wg.Done()
-			res[i] = runOne(s, file, timeoutS)
-		}(i, s)
-	}
-	wg.Wait()
-	tried = append(tried, res...)
+	solvers := []string{"z3-new", "z3", "cvc5"}
 	if first.Status == "unsat" || first.Status == "sat" {
-		return first, tried
+		solvers = []string{"z3", "cvc5"}
 	}
-	for _, r := range res {
+	ch := make(chan SolverAnswer, len(solvers))
+	for _, s := range solvers {
+		go func(s string) { ch <- runOne(s, file, timeoutS) }(s)
+	}
+	var best *SolverAnswer
+	if first.Status == "unsat" || first.Status == "sat" {
+		best = &first
+	}
+	for range solvers {
+		r := <-ch
+		tried = append(tried, r)
 		if r.Status == "unsat" || r.Status == "sat" {
-			return r, tried
+			if best == nil {
+				rr := r
+				best = &rr
+				if !all {
+					break
+				}
+			}
 		}
 	}
-	// report errors if every solver failed
-	best := first
-	for _, r := range res {
-		if best.Status == "error" && r.Status != "error" {
-			best = r
+	if best != nil {
+		return *best, tried
+	}
+	res := first
+	for _, r := range tried {
+		if res.Status == "error" && r.Status != "error" {
+			res = r
 		}
 	}
-	return best, tried
+	return res, tried
 }
